@@ -5,7 +5,7 @@
 
 namespace {
 
-struct Expect { uint32_t node; std::string key; uint64_t report_processed_step; bool immediate; long wire_idx = -1; };
+struct Expect { uint64_t frame = 0; bool judged = false; uint8_t rtype = 0; std::string from; uint32_t node; std::string key; uint64_t report_processed_step; bool immediate; long wire_idx = -1; };
 
 struct C19 : Prop {
 	const char *id() const override { return "C19"; }
@@ -55,7 +55,10 @@ struct C19 : Prop {
 				if (x < 30) { e.set("type", (int) MSG_BM_OCC); e.set("data", pc::jarr({det})); }
 				else if (x < 55) { e.set("type", (int) MSG_BM_FREE); e.set("data", pc::jarr({det})); }
 				else if (x < 80) {
-					int sz = (int) r.range(1, 16) * 8; J d = J::arr(); d.push((int) (r.below(16) * 8)); d.push(sz); for (int q = 0; q < sz / 8; q++) d.push((int) cat::edge_byte(r));
+					int sz = (int) r.range(1, 16) * 8; J d = J::arr();
+					// window position: anywhere, at the start, or ending exactly at the last detector (mnum + size = 256)
+					int mn = r.chance(250) ? 256 - sz : r.chance(150) ? 0 : (int) (r.below((uint64_t) ((256 - sz) / 8 + 1)) * 8);
+					d.push(mn); d.push(sz); for (int q = 0; q < sz / 8; q++) d.push((int) cat::edge_byte(r));
 					e.set("type", (int) MSG_BM_MULTIPLE); e.set("data", d);
 				} else { e.set("type", (int) MSG_BM_POSITION); e.set("data", pc::jarr({(int) r.byte(), (int) r.byte(), (int) r.byte(), (int) r.byte(), (int) r.byte()})); }
 				e.set("tag", 700);
@@ -64,6 +67,15 @@ struct C19 : Prop {
 			ph.set("bus", ev);
 			int nt = (int) r.below(4); maxt = std::max(maxt, nt);
 			J tasks = J::arr();
+			// an application thread that consumes the message queue as fast as it fills (every returned message is freed at once)
+			if (r.chance(350)) {
+				J ops = J::arr();
+				for (int i = 0, no = (int) r.range(4, 20); i < no; i++) {
+					J dr = J::obj(); dr.set("op", "drain"); dr.set("q", "read"); ops.push(dr);
+					J sl = J::obj(); sl.set("op", "sleep"); sl.set("us", (int) r.range(1, 3) * 5000); ops.push(sl);
+				}
+				tasks.push(ops); maxt = std::max(maxt, nt + 1);
+			}
 			for (int q = 0; q < nt; q++) {
 				J ops = J::arr();
 				for (int i = 0, no = (int) r.range(1, 10); i < no; i++) {
@@ -114,14 +126,13 @@ struct C19 : Prop {
 		world = cfg::from_json(e.plan["world"]);
 		exp.clear(); secack.clear(); stalled_now.clear(); wire_seen = 0; immediate_checked = deferred = plain_reports = multiple_reports = 0; armed = false;
 		for (auto &b : world.boards) if (b.present) secack[keyof(b.addr)] = b.secack();
+		// a mirror can exist as soon as the report's last byte has been handed to the receiver: the expectation is registered then;
+		// "already on the wire" is judged when the report is known to be processed (the receiver polls the line again)
 		e.bus.on_delivered = [this](bus::UpFrame &f) {
 			for (auto &m : f.msgs) if (m.type == MSG_STALL && !m.data.empty() && m.data[0]) stalled_now.insert(m.addr_key());
-		};
-		e.bus.on_processed = [this, &e](bus::UpFrame &f) {
 			if (!armed || f.corrupted) return;
 			for (auto &m : f.msgs) {
 				uint32_t nk = m.addr_key();
-				if (m.type == MSG_STALL && !m.data.empty() && !m.data[0]) { stalled_now.erase(nk); continue; }
 				uint8_t mt = 0; std::vector<uint8_t> d;
 				if (m.type == MSG_BM_OCC && m.data.size() >= 1) { mt = MSG_BM_MIRROR_OCC; d = {m.data[0]}; }
 				else if (m.type == MSG_BM_FREE && m.data.size() >= 1) { mt = MSG_BM_MIRROR_FREE; d = {m.data[0]}; }
@@ -131,15 +142,25 @@ struct C19 : Prop {
 				auto it = secack.find(nk);
 				if (it == secack.end() || !it->second) { plain_reports++; continue; }
 				ref::Msg mm; mm.addr = m.addr; mm.type = mt; mm.data = d;
-				Expect x; x.node = nk; x.key = pc::msg_key(mm); x.report_processed_step = f.processed_step; x.immediate = !under_stall(nk);
-				// an earlier mirror of this node still waiting -> this one queues behind it
-				for (auto &p : exp) if (p.node == nk && p.wire_idx < 0) x.immediate = false;
+				Expect x; x.node = nk; x.key = pc::msg_key(mm); x.frame = f.id; x.rtype = m.type; x.from = m.addr_str();
 				exp.push_back(x);
-				scan_wire(e);
+			}
+		};
+		e.bus.on_processed = [this, &e](bus::UpFrame &f) {
+			if (!armed || f.corrupted) return;
+			for (auto &m : f.msgs) if (m.type == MSG_STALL && !m.data.empty() && !m.data[0]) stalled_now.erase(m.addr_key());
+			scan_wire(e);
+			for (size_t i = 0; i < exp.size(); i++) {
+				Expect &x = exp[i];
+				if (x.frame != f.id || x.judged) continue;
+				x.judged = true; x.report_processed_step = f.processed_step;
+				x.immediate = !under_stall(x.node);
+				// an earlier mirror of this node still waiting -> this one queues behind it
+				for (size_t j = 0; j < i; j++) if (exp[j].node == x.node && exp[j].wire_idx < 0) x.immediate = false;
 				if (x.immediate) {
 					immediate_checked++;
-					if (exp.back().wire_idx < 0)
-						e.violate("MIRROR_NOT_SENT_AT_ONCE", "mirror after report", "report type 0x" + hex_of(&m.type, 1) + " from SecAck board " + m.addr_str() + " is known to be processed (step " + std::to_string(f.processed_step) + ") but its mirror " + x.key + " is not on the wire (no flush by the application, auto-flush off)");
+					if (x.wire_idx < 0)
+						e.violate("MIRROR_NOT_SENT_AT_ONCE", "mirror after report", "report type 0x" + hex_of(&x.rtype, 1) + " from SecAck board " + x.from + " is known to be processed (step " + std::to_string(f.processed_step) + ") but its mirror " + x.key + " is not on the wire (no flush by the application, auto-flush off)");
 				} else deferred++;
 			}
 		};
